@@ -26,8 +26,8 @@ STREAM = ('ConstBitStream', 'BitStream')
 ROUTES = ('bin', 'hex', 'oct', 'token', 'token_hit', 'bytes', 'bytes_win', 'bytearray', 'memoryview', 'bools', 'bitarray',
           'bitarray_win', 'bitarray_le', 'bitarray_win_le', 'frozenbitarray', 'array', 'bytesio', 'bytesio_win', 'slice', 'slice_step', 'copy', 'ctor_of_other', 'file', 'file', 'file_len',
           'file_len', 'file_off', 'file_off_len', 'handle', 'handle_len', 'handle_off', 'fromstring', 'join', 'pack', 'pack1', 'int_zeros', 'uint_kw',
-          'iter_gen', 'iter_objs', 'iter_iterator')
-FILE_ROUTES = ('file', 'file_len', 'file_off', 'file_off_len', 'handle', 'handle_len', 'handle_off')
+          'iter_gen', 'iter_objs', 'iter_iterator', 'memoryview_wide_win', 'file_pages')
+FILE_ROUTES = ('file', 'file_len', 'file_off', 'file_off_len', 'handle', 'handle_len', 'handle_off', 'file_pages')
 
 READ_OPS = ('len', 'bool', 'iter', 'getitem', 'getslice', 'add', 'radd', 'mul', 'rmul', 'invert', 'lshift', 'rshift', 'and', 'or', 'xor',
             'eq', 'ne', 'eq_lit', 'hash', 'contains', 'find', 'rfind', 'findall', 'count', 'all', 'any', 'startswith', 'endswith',
@@ -58,8 +58,9 @@ class ERoute(Engine):
             'lsb0 toggles). Non-trivial = at least one operation AND at least one environment / toggle / cache event or a '
             'file-backed route with slack bytes after the logical window; distinct = distinct event-list digest.')
     stub_components = ['SimFS (scratch directory of real files under /dev/shm, real open() and mmap)']
-    assumptions = ['the twin is built from the bits observed after construction (whether the right window was selected is '
-                   'C17 / C15)', 'little-endian host only', 'repr() of a file-backed object names its file by design and '
+    assumptions = ['the twin is built from the bits observed after construction; in addition every source-window route (text, bytes-like, '
+                   'iterable, bitarray, array, BytesIO, file) must build exactly the window of its source and must not refuse it - routes that go '
+                   'through a position-taking operation (slice, join, pack) are exempt from that, their selection is mode-dependent by definition', 'little-endian host only', 'repr() of a file-backed object names its file by design and '
                    'is compared only for other routes']
     expected_probes = ('file_route_with_slack_bytes', 'file_route_length_shorter_than_file', 'op_on_file_backed_lazy',
                        'mutator_on_file_derived', 'env_unlink_then_op', 'lsb0_pair', 'cache_hit_route', 'op_after_toggle', 'big_file_pair', 'op_against_fresh_twin', 'env_replace_then_reopen')
@@ -107,10 +108,21 @@ class ERoute(Engine):
         cls = cfg.get('cls') if cfg.get('cls') in CLASSES else 'Bits'
         self.cls = cls
         self.init_incs = []
+        self.cfg_bits_override = None
+        self.win_off = 0
         st, x = call(self._build, cfg, cls)
+        want = self.cfg_bits_override if self.cfg_bits_override is not None else ''.join(c for c in str(cfg.get('bits', '')) if c in '01')
         if st != 'ok':
-            # construction failures are C15 / C17 territory; fall back to a plain pair so the run is still valid
+            # every route is generated with a source that holds the window it asks for: a refusal is a difference between routes
+            # (the run goes on with a plain pair)
+            if not cfg.get('big'):
+                self.init_incs.append(self.inc(f'route={cfg.get("route")}|construct|raised:{kernel.exc_name(x)}', cls=cls, n=len(want), off=cfg.get('off'), lsb0=bool(cfg.get('lsb0'))))
             x = getattr(B, cls)(bin=''.join(c for c in str(cfg.get('bits', '')) if c in '01'))
+        elif not cfg.get('big') and cfg.get('route') not in ('slice', 'slice_step', 'join', 'pack', 'pack1', 'int_zeros') and x.bin != want:
+            # (routes that go through a position-taking operation - slices, join, pack - select other bits under lsb0 by definition)
+            # ... and so is a route that hands over other bits than the window of its source (the pair then goes on with what was built)
+            self.init_incs.append(self.inc(f'route={cfg.get("route")}|construct|other-bits-than-the-source-window', cls=cls, got=x.bin[:120], want=want[:120], off=cfg.get('off'),
+                                           lsb0=bool(cfg.get('lsb0'))))
         self.X = x
         self.bits0 = x.bin
         self.T = self._twin(x)
@@ -187,6 +199,11 @@ class ERoute(Engine):
             return C(bytearray(bits_to_bytes(bits))) if n % 8 == 0 else C(bytes=bytearray(bits_to_bytes(bits)), length=n)
         if route == 'memoryview':
             return C(memoryview(bits_to_bytes(bits))) if n % 8 == 0 else C(bytes=memoryview(bits_to_bytes(bits)), length=n)
+        if route == 'memoryview_wide_win':
+            # a window of a buffer whose items are wider than a byte (offset and length count bits of its bytes all the same)
+            raw = bits_to_bytes('1' * off + bits + '1' * 5)
+            raw = raw + b'\xff' * ((-len(raw)) % 4)
+            return C(bytes=memoryview(raw).cast('I' if n % 2 else 'H'), offset=off, length=n)
         if route == 'bools':
             return C([c == '1' for c in bits]) if n % 2 else C(tuple(int(c) for c in bits))
         if route == 'bitarray':
@@ -249,6 +266,19 @@ class ERoute(Engine):
             # whole file (no slack possible): lazily mapped
             self.path = self.fs.new_file(bits_to_bytes(bits + '0' * ((-n) % 8)))
             self.remake = (lambda: C(filename=self.path)) if route == 'file' else (lambda: _with_handle(self.path, lambda h: C(h)))
+            return self.remake()
+        if route == 'file_pages':
+            # the window is the tail of a file that is a whole number of memory pages long (an empty window then starts exactly at EOF)
+            tail = bits_to_bytes(bits + '0' * ((-n) % 8)) if n else b''
+            pages = 1 + (n // 8) // 4096 + (n % 3 == 0)
+            size = 4096 * pages
+            padn = (-n) % 8
+            body = b'\xee' * (size - len(tail)) + tail
+            self.path = self.fs.new_file(body)
+            start_bit = 8 * (size - len(tail))
+            self.cfg_bits_override = bits + '0' * padn
+            self.win_off = start_bit
+            self.remake = lambda: C(filename=self.path, offset=start_bit)
             return self.remake()
         if route in ('file_len', 'handle_len'):
             self.path = self.fs.new_file(filedata('', bits))
@@ -611,7 +641,7 @@ class ERoute(Engine):
                         allb = kernel.safe_bin(y0)
                         yb = kernel.safe_bin(y)
                         route_ = self.cfg.get('route')
-                        off_ = int(self.cfg.get('off', 0)) if route_ in ('file_off', 'handle_off', 'file_off_len') else 0
+                        off_ = int(self.cfg.get('off', 0)) if route_ in ('file_off', 'handle_off', 'file_off_len') else int(getattr(self, 'win_off', 0))
                         if allb[off_:off_ + len(yb)] != yb:
                             incs_r.append(self.inc(f'route={route_}|env=replace|object-made-after-the-replacement-holds-other-bits-than-the-file', cls=self.cls, size=len(new),
                                                    got=yb[:80], file_has=allb[off_:off_ + len(yb)][:80]))
